@@ -10,6 +10,7 @@ CONSTANTS
   Eons <- cEons
   MaxDepth = 5
   Emit = FALSE
+  TagMode = "none"
 SPECIFICATION SpecNI
 INVARIANT C10_NI
 VIEW ViewNI
